@@ -34,6 +34,7 @@ def run(rep, fb, tier):
     from ..rules import pyrules as _pr5
     _pr5.rule_py_call_shape(rep)
     _pr5.rule_py_dead_attr(rep)
+    _pr5.rule_py_offset_units(rep)
     _pr5.rule_py_self_attrs(rep)
     _pr5.rule_py_isinstance_shadow(rep)
     _pr5.rule_py_none_guard(rep)
